@@ -8,6 +8,8 @@ def build(tier):
                                           "cpp_constructor": [2, 4], "function": [1, 2, 3, 5], "macro": [3], "@other": [1]})
     obs += steps.step_obligations('C09.a', ['cpp_class', 'cpp_end_class', 'cpp_attr', 'cpp_member', 'cpp_constructor', 'function'], tier, 1, 1, symargs=True,
                                   deepc=12 if quick else 30, deepd=2, preargs=['t%d' % i for i in range(8 if quick else 30)])
+    # member strip pattern: free regex shim with three distinct opaque patterns; the implementing definition may be a function or a macro
+    obs += steps.step_obligations('C09.a', ['function', 'macro'], tier, 1, 1, free=True, symargs=True, tl=1, dl=2, arities={'function': [3, 5], 'macro': [3, 5]})
     shapes = [dict(bases=0, ctors=[], methods=[], attrs=[], inner=0),
               dict(bases=2, ctors=[], methods=[(0, 0, False)], attrs=[False], inner=0),
               dict(bases=1, ctors=[(1, 1, False)], methods=[(2, 2, False), (1, 2, True)], attrs=[True, False], inner=2),
